@@ -73,3 +73,38 @@ package p2pmux
 //@        && (forall j :: 0 <= j && j < len(ret0) ==> ret0[j] == x[uvarint_n(x) + j]) \
 //@        && len(ret1) == len(x) - uvarint_n(x) - uvarint_val(x) \
 //@        && (len(ret1) > 0 ==> ret1 == x[uvarint_n(x) + uvarint_val(x):])
+
+// ---- dispatch: a frame reaches a channel's hub only if it demultiplexed without error, and with
+// exactly the body and addresses the demultiplexer produced ----------------------------------------
+
+//@ func (*muxCore).handleRecv
+//@   noframe
+//@   ghostvar demuxok = false
+//@   ensures true
+//@   after call demuxFunc:
+//@     set demuxok = res2 == nil
+//@   before call (*TellHub).Deliver:
+//@     assert [demuxed] ghost(demuxok)
+//@     assert [same] arg2.Payload == body && arg2.Src == m.Src && arg2.Dst == m.Dst
+//@   fnspec demuxFunc:
+//@     pure
+//@
+//@ func (*muxCore).serveLoop$1$1
+//@   noframe
+//@   requires mc != nil
+//@   ghostvar demuxok = false
+//@   ensures true
+//@   after call demuxFunc:
+//@     set demuxok = res2 == nil
+//@   before call (*AskHub).Deliver:
+//@     assert [demuxed] ghost(demuxok)
+//@     assert [same] arg3.Payload == body && arg3.Src == req.Src && arg3.Dst == req.Dst && arg2 == resp
+//@   fnspec demuxFunc:
+//@     pure
+//@
+//@ // the channel table only ever holds swarms built by newMuxedSwarm (sync.Map contents are not modelled)
+//@ func (*muxCore).getSwarm
+//@   trusted
+//@   pure
+//@   ensures ret1 == nil ==> ret0 != nil && inv(ret0.tellHub) && inv(ret0.askHub)
+//@   ensures ret1 != nil ==> ret0 == nil
